@@ -54,17 +54,17 @@ CHECKS = {
  'C11': dict(
     technique="exhaustive enumeration of dilute/fill_to specifications derived from the current state by the reference model; results judged by definition",
     text="7 mixture classes x solute x solvent (present/other) x 17 concentration spellings x 6 target factors x 4 capacity classes for dilute; 10 unit spellings x 4 factors x capacities x 3 solvent kinds for fill_to: "
-         "only the solvent increases, target met, capacity respected, refusal above the current concentration / below the current quantity; every request with an unlimited or just-too-small vessel also as a recipe step (same outcome and container as the direct call); every accepted dilution also under a new name; enzyme fillers in every unit (a filler that cannot be measured in the unit of the target must be refused)."+CFG,
+         "only the solvent increases, target met, capacity respected, refusal above the current concentration / below the current quantity; every request with an unlimited or just-too-small vessel also as a recipe step (same outcome and container as the direct call); every accepted dilution also under a new name; enzyme fillers in every unit (a filler that cannot be measured in the unit of the target must be refused); serial dilutions (the diluted container is diluted again, directly and after a transfer)."+CFG,
     note="Factor 1 and a vessel whose capacity equals the result volume exactly are don't-care. " + TRUST,
     ref="DESIGN.md section 4 C11"),
  'C12': dict(
     technique="exhaustive enumeration of create_solution_from specifications; feasibility by an exact 2x2 rational solve; results judged by definition incl. uniform aliquots and conservation",
-    text="5 stocks x 4 solvent forms x 16 concentration spellings x 4 ratios x 7 quantity units x 4 sizes x input vessels {unlimited, 2 % head-room} (33 280 specs per valuation); name and capacity of the residual vessels, sanity of every returned vessel."+CFG,
+    text="5 stocks x 4 solvent forms x 16 concentration spellings x 4 ratios x 7 quantity units x 5 sizes (down to 1.2e-7 of the stock) x input vessels {unlimited, 2 % head-room} (33 280 specs per valuation); name and capacity of the residual vessels, sanity of every returned vessel."+CFG,
     note="Ratio 1 and whole-stock requests are don't-care. " + TRUST,
     ref="DESIGN.md section 4 C12"),
  'C17': dict(
     technique="exhaustive enumeration of mixtures x selectors x object forms, direct and as recipe step, against the reference model and a ledger of removed amounts",
-    text="All 31 non-empty mixtures of 5 substances x 9 selectors, plus 66 mixtures that hold a substance next to a twin (another substance carrying its name) x 12 selectors, x {container, whole plate, 12 slice geometries, 3 sub-slices} x {direct, recipe}, plus two plates without any liquid: exact contents (keyed by what a substance is, not by Substance.__eq__), volume, frame, and the link to get_substance_used / get_container_flows."+CFG,
+    text="All 31 non-empty mixtures of 5 substances x 9 selectors, plus 66 mixtures that hold a substance next to a twin (another substance carrying its name) x 12 selectors, x {container, whole plate, 12 slice geometries, 3 sub-slices} x {direct, recipe}, plus two plates without any liquid and drained containers (amounts 0.0): exact contents (keyed by what a substance is, not by Substance.__eq__), volume, frame, and the link to get_substance_used / get_container_flows."+CFG,
     note=TRUST,
     ref="DESIGN.md section 4 C17"),
  'C06': dict(
